@@ -447,7 +447,7 @@ func checkC09(c *hx.Ctx) {
 			alt := h + "." + ref.B64([]byte(fmt.Sprintf(`{"long":"%s","type":"%s"}`, strings.Repeat("q", 96*1024), t))) + "." + sg
 			cases = append(cases, jwsCase{Kind: "verify", JWS: j, JWK: jwkStrings(k)}, jwsCase{Kind: "verify", JWS: alt, JWK: jwkStrings(k)})
 		}
-		for round := 0; round < c.N(2, 20); round++ {
+		for round := 0; round < c.N(2, 8); round++ {
 			c.Eval()
 			st, msg, ok := call(jwsCase{Kind: "concurrent", Seq: cases, KeySeed: ref.B64(rng.Bytes(16))})
 			if !ok {
